@@ -15,7 +15,12 @@ Three oracles, all on float64 recipes whose float leaves (a generated SUBSET of 
  3 `memeff`   the gradients under settings.memory_efficient on / off agree to rounding.
 
 A forward pass that raises (also without any requires_grad) or whose VALUE is outside the forward tolerance is not C07's
-business (C01..C06 own it): such cases are counted (`forward_failed`, `forward_mismatch`), never reported.
+business (C01..C06 own it): such cases are counted (`forward_failed`, `forward_mismatch`), never reported.  The same holds for
+a single-probe Lanczos run whose Krylov space is deficient (`lanczos_krylov_deficient`, see _LanczosWatch).
+
+Aliased leaves: in a generated fraction of the cases several literals of the recipe ("tie": g) are materialised as ONE tensor
+object (K = A (x) A, k(X, X), [A | A], A + A, one parameter in two sub-operators); the reference ties them in the leaf map, so
+that both sides deliver the TOTAL derivative w.r.t. the shared leaf (label `alias:tied`).
 """
 import contextlib
 import copy
@@ -37,14 +42,20 @@ RULE = (
     "case = (float64 operator recipe over the class zoo, nesting <= 3, n <= 5, batch kinds incl. sub-batch children; heads drawn with a "
     "quota from the classes with hand-written derivative code, 1/4 of the cases nest ONLY those classes; a generated SUBSET of the float "
     "leaves requires grad (all / one / random subset / none-but-rhs), some leaves are non-leaf tensors or stride-0 expansions of a smaller "
-    "leaf; an entry point from {matmul (vector / matrix / batched / broadcast rhs), rmatmul, to_dense, diagonal, getitem (slice / int row "
+    "leaf; in 1/3 of the non-bilinear cases (made whenever the recipe admits it, ~20-25% of all cases) two or more float literals of equal kind / "
+    "shape -- x1 / x2 of a kernel matrix, left / right interpolation values, a sibling argument replaced by a copy of an earlier one "
+    "(Kronecker / Sum / Mul / Cat / Matmul), two leaves anywhere whose values may be exchanged without leaving the domain -- are "
+    "materialised as ONE shared tensor object; an entry point from {matmul (vector also against batched operators / matrix / batched / "
+    "broadcast rhs incl. fewer dims with an interior size-1 dim under a 3-dim batch and more dims + wider at size-1 dims), rmatmul, "
+    "to_dense, diagonal, getitem (slice / int row "
     "/ tensor indices), sum (rows / columns / batch), add_diagonal, add_jitter, op + op, op * op, solve (+- left factor), inv_quad, "
     "inv_quad_logdet, logdet (Cholesky / closed-form paths only), cholesky, root_decomposition (loss on R R^T), pivoted_cholesky (full "
     "rank, loss on L L^T), sqrt_inv_matmul (+- lhs), _bilinear_derivative(U, V) with same / more / fewer batch dims}; a generated "
     "cotangent; settings {memory_efficient on/off (both always executed and compared)} x {max_cholesky_size default | 0 with "
-    "cg_tolerance=1e-12, max_cg_iterations=200}). Non-trivial: >= 1 leaf of a non-Dense class requires grad AND (a broadcast / expanded / "
-    "sub-batch leaf OR a strict subset of the float leaves requires grad OR nesting >= 2). Distinct by (class path, entry point, "
-    "requires-grad pattern, expansion pattern, settings cell, rhs / lhs shape, index kind, sum dim, U/V kind)."
+    "cg_tolerance=1e-12, max_cg_iterations=200}). Non-trivial: (>= 1 leaf of a non-Dense class requires grad AND (a broadcast / expanded / "
+    "sub-batch leaf OR a strict subset of the float leaves requires grad OR nesting >= 2)) OR a shared (aliased) leaf requires grad. "
+    "Distinct by (class path, entry point, requires-grad pattern, expansion pattern, alias pattern, settings cell, rhs / lhs shape, "
+    "index kind, sum dim, U/V kind)."
 )
 BUDGET = {"quick": 2600, "thorough": 2500}
 ASSUMPTIONS = [
@@ -53,7 +64,12 @@ ASSUMPTIONS = [
     "max_cholesky_size only (Cholesky or closed-form overrides); partial-rank pivoted_cholesky is not differentiated here",
     "a forward pass that raises (also with no requires_grad anywhere) or returns a value outside the forward tolerance is counted, not "
     "reported (owned by C01-C06)",
-    "a 1-D right-hand side is generated against non-batched operators only",
+    "a 1-D right-hand side is generated against batched operators too (for solve_left / sqrt_inv_matmul with lhs only 2-D ones)",
+    "single-probe Lanczos runs (root / root-inverse decompositions and diagonalisations above max_cholesky_size) are a decomposition of "
+    "the matrix only if the probe's Krylov space is the whole space: a run in which some beta <= 1e-6 (the library's own break-down "
+    "threshold; repeated eigenvalues) or that returns fewer columns than requested is counted (lanczos_krylov_deficient), not compared "
+    "(forward defect owned by C04 / C09: F-C04-lanczos-structured-solve, F-C09-first-step-breakdown, F-C09-mixed-breakdown-batch)",
+    "aliased leaves: tied literals of the _bilinear_derivative oracle are NOT shared (that oracle is per slot of representation())",
     "cases whose effective condition number (head, operands of elementwise products, internally inverted summands, eigenvalue-gap "
     "factor of eigendecomposed Kronecker factors) exceeds 1e6 are counted as ill-conditioned and not compared",
     "sqrt_inv_matmul: the first right-hand-side column must have a relative component >= 1e-3 on the extreme eigenvectors (the "
@@ -72,6 +88,8 @@ MUTANTS = [
     "functions/_matmul.py: rhs gradient with _matmul instead of _t_matmul (killed)",
     "constant_mul_linear_operator.py: no sum over size-1 dims of the constant (EQUIVALENT: autograd sum-reduces expandable gradients)",
     "functions/_matmul.py: no broadcast sum of rhs_grad (EQUIVALENT: autograd sum-reduces expandable gradients)",
+    "seeded/C07_b: default _bilinear_derivative detaches a tensor occupying several representation() slots only once -> the shared "
+    "tensor's gradient is doubled (killed at seeds 1 and 2 by the aliased-leaf cases: Kronecker / Cat / Kernel with one shared tensor)",
 ]
 
 # ----------------------------------------------------------------------------------------------------------------------
@@ -1941,7 +1959,8 @@ def coverage_extra():
             "S": "entrywise: d/d|leaf| of sum((|G|+max|G|) * A_abs(|leaves|)) in the monotone absolute-value model (elementwise "
                  "products modelled normwise), never below |g_ref| + max|g_ref|, plus L/max|leaf| with L = sum(|W||out|)",
             "cg": "+ C_CG(16) * kappa * max(sqrt(1e-10 / lambda_min), 1e-10)  (linear_cg's eps = 1e-10 progress floor, DESIGN C08)",
-            "lanczos": "+ 16 * tridiagonal_jitter(1e-6) + C_DIRECT * u64 * kappa^2",
+            "lanczos": "+ 16 * tridiagonal_jitter(1e-6) + C_DIRECT * u64 * kappa^2; if functions/_diagonalization.py ran: + 2 n * 1e-10 * "
+                       "s_max / gap^2 (its backward uses 1 / (s_i - s_j + 1e-10)); path = the algorithm the verbose_linalg log reports",
             "ciq": "+ 1e-7 * kappa (minres_tolerance 1e-10, Q = 15 quadrature nodes: error <= 2e-8 for kappa <= 1e6)",
             "forward_gate": "max|out_lib - out_ref| <= 16 * rtol * max|out_ref|, else forward_mismatch (not reported)",
             "memeff": "C_MEMEFF(64) * u64 * S",
@@ -1956,6 +1975,8 @@ def gaps(labels):
     for ep in sorted(set(EPS_ANY + EPS_PD)):
         if not labels.get("compared:" + ep):
             out.append("entry point never compared: " + ep)
+    if not labels.get("alias:compared_rg"):
+        out.append("no case with an aliased (shared) leaf that requires grad was compared")
     heads = {k.split(":", 1)[1] for k in labels if k.startswith("class:")}
     allc = {n if n not in ("TriT", "TriBase") else "Tri" for n in gen.PREDS} - {"Zero", "Permutation", "TransposePermutation"}
     out += sorted("class never generated: " + c for c in allc - heads)
